@@ -158,23 +158,26 @@ where
     }
 
     fn poll_flush(
-        mut self: std::pin::Pin<&mut Self>,
+        self: std::pin::Pin<&mut Self>,
         cx: &mut std::task::Context<'_>,
     ) -> std::task::Poll<Result<(), Self::Error>> {
-        let this = self.as_mut().get_mut();
-        match &mut this.write_state {
-            State::Configuring(io, buf) => {
-                initialize!(&mut this.write_state, io, buf);
-                self.poll_flush(cx)
+        let this = self.get_mut();
+        loop {
+            match &mut this.write_state {
+                State::Configuring(io, buf) => {
+                    initialize!(&mut this.write_state, io, buf);
+                }
+                // Nothing in flight: flush the underlying writer
+                State::Idle(_) => this.write_state.start_flush(),
+                // Finish the write first, then flush the underlying writer
+                State::Writing(_) => {
+                    ready!(this.write_state.poll_sink(cx)).map_err(C::Error::from)?
+                }
+                State::Flushing(_) => {
+                    return this.write_state.poll_sink(cx).map_err(C::Error::from);
+                }
+                State::Closing(_) => unreachable!("`Framed` is closing, cannot flush"),
             }
-            State::Idle(_) => {
-                this.write_state.start_flush();
-                this.write_state.poll_sink(cx).map_err(C::Error::from)
-            }
-            State::Writing(_) | State::Flushing(_) => {
-                this.write_state.poll_sink(cx).map_err(C::Error::from)
-            }
-            State::Closing(_) => unreachable!("`Framed` is closing, cannot flush"),
         }
     }
 
@@ -183,12 +186,20 @@ where
         cx: &mut std::task::Context<'_>,
     ) -> std::task::Poll<Result<(), Self::Error>> {
         let this = self.get_mut();
-        match &mut this.write_state {
-            state @ State::Idle(_) => {
-                state.start_close();
-                state.poll_sink(cx).map_err(C::Error::from)
+        loop {
+            match &mut this.write_state {
+                State::Configuring(io, buf) => {
+                    initialize!(&mut this.write_state, io, buf);
+                }
+                State::Idle(_) => this.write_state.start_close(),
+                // Finish what is in flight first, then shut the underlying writer down
+                State::Writing(_) | State::Flushing(_) => {
+                    ready!(this.write_state.poll_sink(cx)).map_err(C::Error::from)?
+                }
+                State::Closing(_) => {
+                    return this.write_state.poll_sink(cx).map_err(C::Error::from);
+                }
             }
-            _ => this.write_state.poll_sink(cx).map_err(C::Error::from),
         }
     }
 }
